@@ -83,6 +83,216 @@ Theorem C07_ghost_fresh : forall b, GI (conn0 b) None.
 Proof. intros b. reflexivity. Qed.
 Print Assumptions C07_ghost_fresh.
 
+(* ---- begin block: two-endpoint composition (Model/Net.v + Net2.v, Proofs/AckNetP.v) ---- *)
+From Coq Require Import Lia.
+From RecordUpdate Require Import RecordUpdate.
+From Model Require Import Net Net2.
+From Proofs Require Import AckNetP.
+Import RecordSetNotations.
+
+(* 5. "Success means accepted" as ONE theorem over joint histories of the two endpoints A (the
+      sender whose callbacks are observed) and B (its peer).  1 and 4 above are its two halves;
+      here they are composed.  A joint history is a list of labelled endpoint events (Net2.lev):
+      events of A and of B in any interleaving; the network and the attacker are the choice of the
+      datagram each receive event carries (loss, duplication, reordering, delay, replay, injection
+      of anything the endpoint cannot open).  The ghost state G (Net2.gnet, a function of the
+      history) numbers the datagrams: g_nA = how many sequence numbers A has consumed, g_AB = the
+      datagrams A put on the wire with their indices (map snd = Net.wAB), g_B / g_accB = the
+      indices / the datagrams B has accepted, g_BA = the datagrams B put on the wire, each with the
+      value g_B had when it was built (map snd = Net.wBA).
+      Schedule hypotheses, per event (Net2.wf2_ev):
+       (auth)  whatever an endpoint opens (Net2.opens: under the session key it holds; while it holds
+               none, a clear hello — the handshake is not interfered with) was put on the wire by the
+               other endpoint; for B, as the index l the event is labelled with;
+       (near)  that index is within HALF of the newest index B has accepted (C08's half-range
+               hypothesis);
+       (fresh) a B-datagram A opens was built when B's newest accepted index m satisfied
+               g_nA - m <= FRESH = RING - 33 = 65502 (no ack header staler than that is replayed to
+               A; 65502 is exact for this arithmetic: the header names indices m-32..m and pending
+               indices are within RING - 2 of g_nA.  A header built before B accepted anything carries
+               ack = 0, which _handle_ack_bits reads as sequence number 65535: then g_nA < RING);
+       A's application keeps the connection open and does not reconfigure message time-out / send
+       interval (ev_open2, as in 3).
+      The joint invariant J S K G (Proofs/AckNetP.v; S = lower bound of A's send interval, message
+      time-out < (RING-1) * S as in 3) holds of the initial pair — through the handshake — and is
+      preserved by every event of every such history. *)
+Theorem C07_joint_invariant_fresh : forall S, 0 < S -> S <= 256 -> TICKS < (RING - 1) * S -> J S 0 gnet0.
+Proof. exact J_gnet0. Qed.
+Print Assumptions C07_joint_invariant_fresh.
+
+Theorem C07_joint_invariant : forall e S K vs G, J S K G -> wf2_run e G vs -> J S K (grun e G vs).
+Proof. exact J_run. Qed.
+Print Assumptions C07_joint_invariant.
+
+(*    Every pending datagram that a step of A resolves as acknowledged (it is pending when the
+      datagram d reaches _recv_datagram in state a0, A opens d, and d's (ack, ack_bits) name its
+      sequence number s) is a datagram index i of A that B HAS ACCEPTED before that moment, and the
+      datagram dA that A put on the wire as index i (h_seq = wire i = s) is one B has accepted. *)
+Theorem C07_acked_means_accepted : forall e S K G vs x l a0 d,
+  J S K G -> wf2_run e G (vs ++ [(NA x, l)]) ->
+  let G' := grun e G vs in
+  pre_recv (nA (g_net G')) x = Some (a0, d) -> opens a0 d = true ->
+  forall s t, In (s, t) (c_packs a0) ->
+    hdr_acks (h_ack (d_hdr d)) (h_ackbits (d_hdr d)) s = true ->
+    exists i dA, s = wire i /\ 1 <= i <= g_nA G' /\ In i (idx_acc (g_B G')) /\
+                 In (i, dA) (g_AB G') /\ h_seq (d_hdr dA) = s /\ In dA (g_accB G').
+Proof. exact acked_means_accepted. Qed.
+Print Assumptions C07_acked_means_accepted.
+
+(*    Whenever a step of A reports success for callback id (OCallback id true among its outputs), it
+      is processing a datagram d it opens; the callback object k that reports to id (cb_for: the
+      user callback itself, plain or wrapped by a RetrySender, or the collector of a fragmented
+      message) is registered in pending_callbacks for a pending datagram (s, t) that d's ack fields
+      name; that datagram is index i of A, was put on the wire as dA (an element of Net.wAB), and B
+      HAS ACCEPTED dA before this moment. *)
+Theorem C07_success_means_accepted : forall e S K G vs x l a' o id,
+  0 <= e_max_payload e -> J S K G -> Inc (nA (g_net G)) -> wf2_run e G (vs ++ [(NA x, l)]) ->
+  let G' := grun e G vs in
+  step e (nA (g_net G')) x = (a', o) -> In (OCallback id true) o ->
+  exists a0 d s t ks k i dA,
+    pre_recv (nA (g_net G')) x = Some (a0, d) /\ opens a0 d = true /\
+    In (s, t) (c_packs a0) /\ hdr_acks (h_ack (d_hdr d)) (h_ackbits (d_hdr d)) s = true /\
+    dget s (c_pcbs a0) = Some ks /\ In k ks /\ cb_for k id /\
+    s = wire i /\ 1 <= i <= g_nA G' /\ In i (idx_acc (g_B G')) /\
+    In (i, dA) (g_AB G') /\ In dA (wAB (g_net G')) /\ h_seq (d_hdr dA) = s /\ In dA (g_accB G').
+Proof. exact success_registered_accepted. Qed.
+Print Assumptions C07_success_means_accepted.
+
+(*    The resolution counter: whenever a step of A counts a datagram as acknowledged (stats.acked
+      goes up), A is processing a datagram it opens, every pending datagram that d names has been
+      accepted by B (acked_accepted, the statement of C07_acked_means_accepted), and there is one. *)
+Theorem C07_ack_counted_means_accepted : forall e S K G vs x l a' o,
+  J S K G -> wf2_run e G (vs ++ [(NA x, l)]) ->
+  let G' := grun e G vs in
+  step e (nA (g_net G')) x = (a', o) -> c_acked (nA (g_net G')) < c_acked a' ->
+  exists a0 d s t i dA,
+    pre_recv (nA (g_net G')) x = Some (a0, d) /\ opens a0 d = true /\ acked_accepted G' a0 d /\
+    In (s, t) (c_packs a0) /\ hdr_acks (h_ack (d_hdr d)) (h_ackbits (d_hdr d)) s = true /\
+    s = wire i /\ In i (idx_acc (g_B G')) /\ In (i, dA) (g_AB G') /\ h_seq (d_hdr dA) = s /\ In dA (g_accB G').
+Proof. exact ack_counted_means_accepted. Qed.
+Print Assumptions C07_ack_counted_means_accepted.
+
+(*    Short sessions: while A has consumed at most HALF + 1 = 32768 sequence numbers, (near) and
+      (fresh) hold by themselves — (auth) alone (Net2.auth_ev) is enough. *)
+Theorem C07_short_sessions : forall e S K vs G, J S K G -> auth_run e G vs -> wf2_run e G vs.
+Proof. exact auth_run_wf2. Qed.
+Print Assumptions C07_short_sessions.
+
+(* non-vacuity, through the handshake from the initial pair: A says hello, B answers, A sends the
+   challenge response and is connected, B is connected; A sends "AB" with callback 5 (datagram
+   index 3); B accepts it and hands "AB" to its application; B's next keep-alive (ack = 3, both
+   older bits set) reaches A -> callback 5 fires with True.  Every hypothesis of the theorems holds
+   of this history. *)
+Definition env_n : env := {| e_max_payload := 1434; e_max_frag := 1024; e_max_frags := 8192 |}.
+Definition orc_n : hs_oracle :=
+  {| o_parse := 0; o_version_ok := true; o_token := 99; o_key := 7; o_reply := [x0a; x0b]; o_temp_token := Some 99 |}.
+Definition dg_none : dgram := {| d_hdr := Build_header true 0 0 0 APP 0 0 0; d_body := Bad |}.
+Definition lastAB (G : gnet) : dgram := last (wAB (g_net G)) dg_none.
+Definition lastBA (G : gnet) : dgram := last (wBA (g_net G)) dg_none.
+Definition lastgB (G : gnet) : idxset := fst (last (g_BA G) (None, dg_none)).
+Definition hn1 : list lev := [(NA (EClientHello 1000 [x01; x02]), 0); (NA (EClientTick 2000 RxNone), 0)].
+Definition Gn1 := grun env_n gnet0 hn1.
+Definition hn2 : list lev := [(NB (ERecv 3000 (lastAB Gn1) [orc_n]), 1); (NB (EServerTick 4000), 0)].
+Definition Gn2 := grun env_n Gn1 hn2.
+Definition hn3 : list lev := [(NA (EClientTick 5000 (RxDgram (lastBA Gn2) [orc_n])), 0)].
+Definition Gn3 := grun env_n Gn2 hn3.
+Definition hn4 : list lev :=
+  [(NB (ERecv 6000 (lastAB Gn3) [orc_n]), 2); (NA (ESend [x41; x42] RNone (IUser 5)), 0); (NA (EClientTick 7000 RxNone), 0)].
+Definition Gn4 := grun env_n Gn3 hn4.
+Definition hn5 : list lev := [(NB (ERecv 8000 (lastAB Gn4) []), 3); (NB (EServerTick 9000), 0)].
+Definition Gn5 := grun env_n Gn4 hn5.
+Definition xn6 : ev := EClientTick 10000 (RxDgram (lastBA Gn5) []).
+Definition hn : list lev := hn1 ++ hn2 ++ hn3 ++ hn4 ++ hn5.
+
+Ltac ev_goal := let d := fresh "d" in let Hd := fresh "Hd" in intros d Hd;
+  match type of Hd with
+  | dgram_in (ERecv _ ?D _) = _ => intros _; cbn [dgram_in] in Hd; assert (d = D) as -> by congruence; clear Hd
+  | dgram_in (EClientTick _ (RxDgram ?D _)) = _ => intros _; cbn [dgram_in] in Hd; assert (d = D) as -> by congruence; clear Hd
+  | _ => cbn [dgram_in] in Hd; discriminate Hd
+  end.
+Ltac fin_goal := match goal with
+  | |- exists g, In (g, _) (g_BA ?G) => exists (lastgB G); vm_compute; auto 10
+  | |- In _ _ => vm_compute; auto 10
+  end.
+
+Example C07_success_means_accepted_example :
+  J 256 0 gnet0 /\ Inc (nA (g_net gnet0)) /\
+  auth_run env_n gnet0 (hn ++ [(NA xn6, 0)]) /\ wf2_run env_n gnet0 (hn ++ [(NA xn6, 0)]) /\
+  grun env_n gnet0 hn = Gn5 /\
+  c_status (nA (g_net Gn5)) = CONNECTED /\ c_status (nB (g_net Gn5)) = CONNECTED /\
+  c_key (nA (g_net Gn5)) = Some 7 /\ c_key (nB (g_net Gn5)) = Some 7 /\
+  c_packs (nA (g_net Gn5)) = [(2, 5000); (3, 7000)] /\
+  filter (fun o => match o with OCallback _ _ => true | _ => false end) (snd (step env_n (nA (g_net Gn5)) xn6))
+    = [OCallback 5 true] /\
+  g_nA Gn5 = 3 /\ g_B Gn5 = Some (3, [3; 2; 1]) /\ In (3, lastAB Gn4) (g_AB Gn5) /\ In (lastAB Gn4) (g_accB Gn5) /\
+  dlvB (g_net Gn5) = [[x41; x42]].
+Proof.
+  assert (HJ : J 256 0 gnet0) by (apply J_gnet0; [reflexivity|intro H; discriminate H|reflexivity]).
+  assert (HA : auth_run env_n gnet0 (hn ++ [(NA xn6, 0)])).
+  { unfold hn, hn1, hn2, hn3, hn4, hn5, xn6. cbn [app auth_run auth_ev ev_open2].
+    repeat match goal with |- _ /\ _ => split end; try exact I;
+      try (match goal with |- _ <= _ => vm_compute; discriminate end).
+    all: ev_goal. all: fin_goal. }
+  split; [exact HJ|]. split; [constructor|]. split; [exact HA|]. split; [exact (auth_run_wf2 _ _ _ _ _ HJ HA)|].
+  split; [vm_compute; reflexivity|]. vm_compute. repeat split; auto 10.
+Qed.
+
+(* The (fresh) hypothesis cannot be dropped: with (auth) and (near) only — every datagram opened
+   was genuinely emitted by the peer, so this is a STALE, not a forged, ack field — the clause is
+   false in the faithful model.  Sequence numbers are 16 bit: an ack header built when B's newest
+   accepted index was m names the wire numbers of m-32..m, which are also the wire numbers of
+   m+65535-32..m+65535.  Witness: the joint state reached by the handshake example above, with A
+   later in its session (65537 sequence numbers consumed, nothing pending — J holds of it: J_with_A);
+   B has accepted A's indices 1,2,3 and nothing since (A -> B traffic lost).  A sends "C" with
+   callback 9: datagram index 65538, wire number 3.  B's next keep-alive honestly says ack = 3;
+   A opens it and reports callback 9 = True, although B never received index 65538 and "C" was
+   never handed to B's application.  (The state is given directly rather than reached by a
+   65 534-step history; on the real endpoints the situation needs A to emit 65 535 datagrams —
+   18 minutes at the default 60 Hz — while its own datagrams are lost and it keeps hearing acks
+   with the old ack field: from a peer whose liveness time-out does not fire, or from an attacker
+   replaying one recorded datagram of B that is more than 32 behind A's receive window, which
+   BitField.insert accepts every time, cf. known finding D16.) *)
+Definition Gn6 := gstep env_n Gn5 (NA xn6, 0).
+Definition a_late : conn := (nA (g_net Gn6)) <| c_seq_send := 2 |> <| c_packs := [] |> <| c_pcbs := [] |>.
+Definition G_late : gnet := with_A Gn6 a_late 65537.
+Definition hl1 : list lev :=
+  [(NA (ESend [x43] RNone (IUser 9)), 0); (NA (EClientTick 11000 RxNone), 0); (NB (EServerTick 12000), 0)].
+Definition Gl1 := grun env_n G_late hl1.
+Definition xl2 : ev := EClientTick 13000 (RxDgram (lastBA Gl1) []).
+
+Theorem C07_stale_ack_refuted : exists G vs x,
+  J 256 (-1) G /\ Inc (nA (g_net G)) /\ nofresh_run env_n G (vs ++ [(NA x, 0)]) /\
+  In (OCallback 9 true) (snd (step env_n (nA (g_net (grun env_n G vs))) x)) /\
+  g_nA (grun env_n G vs) = 65538 /\ c_packs (nA (g_net (grun env_n G vs))) = [(3, 11000)] /\ wire 65538 = 3 /\
+  idx_acc (g_B (grun env_n G vs)) = [3; 2; 1] /\
+  sentA (g_net (grun env_n G vs)) = [[x43]; [x41; x42]] /\ dlvB (g_net (grun env_n G vs)) = [[x41; x42]].
+Proof.
+  exists G_late, hl1, xl2.
+  destruct C07_success_means_accepted_example as (HJ0 & _ & _ & Hwf & _).
+  assert (HJ6 : J 256 0 Gn6).
+  { replace Gn6 with (grun env_n gnet0 (hn ++ [(NA xn6, 0)])) by (vm_compute; reflexivity). exact (J_run _ _ _ _ _ HJ0 Hwf). }
+  assert (HAl : AInv 256 (-1) a_late 65537).
+  { (assert (E1 : c_packs a_late = []) by (vm_compute; reflexivity)).
+    split; [constructor|unfold purged; rewrite E1; constructor].
+    - lia.
+    - (vm_compute; reflexivity).
+    - (replace (c_send_interval a_late) with 256 by (vm_compute; reflexivity)). clear; lia.
+    - clear; lia.
+    - (replace (c_out_timeout a_late) with 15360 by (vm_compute; reflexivity)). clear; unfold RING; lia.
+    - rewrite E1. constructor.
+    - rewrite E1. constructor.
+    - (vm_compute; reflexivity). }
+  split; [apply (J_with_A 256 0 (-1) Gn6 a_late 65537 HJ6 HAl); vm_compute; discriminate|].
+  split; [(vm_compute; constructor)|].
+  split.
+  { unfold hl1, xl2. cbn [app nofresh_run nofresh_ev ev_open2].
+    repeat match goal with |- _ /\ _ => split end; try exact I.
+    all: ev_goal. all: fin_goal. }
+  (vm_compute; repeat split; auto 10).
+Qed.
+Print Assumptions C07_stale_ack_refuted.
+(* ---- end block: two-endpoint composition ---- *)
+
 (* Invariant used by 1 (fragment sender contexts kept in pending_fragments are never complete):
    it holds initially and is preserved by the callback machinery and the receive path. *)
 Theorem C07_inc_fresh : forall b, Inc (conn0 b).
